@@ -119,3 +119,11 @@ def fill(check, NA):
           "discontinuity, or involving IEEE negative zero are decided by the reference and skipped",
           "trusted: mpmath (30 digits) and CasADi evaluation as references",
           "bounded exhaustive program enumeration with differential evaluation", "DESIGN.md section 4 C19")
+
+    check("C20", "model_checking",
+          "stateless exhaustive exploration on the real uros Core / Publisher / Subscriber / Param / Logger: for every small topology (all subscriber multisets of size <= 3 incl. a relaying subscriber, parameter nodes "
+          "following or not following the parameter topic, logger present/absent, integer-period periodic publishers with exact ties) all event words to the depth are executed on a fresh bus and the simultaneous simpy "
+          "events inside run slices are permuted with <= 1 (thorough 2) deviations from FIFO through a controlled Core.step; every inbox, parameter value and logger row is compared with a list-per-topic reference model "
+          "after every event; the real AttitudeEstimator with spy equation functions is driven by all (sensor, delta t) words for the dt > 0 / rate-limit / initialisation rules",
+          "trusted: simpy; only exactly tied events are permuted; word depth 4 (quick) / 5 (thorough); 400-schedule cap per word reported in evidence when hit",
+          "bounded exhaustive exploration: event-word enumeration + deviation-bounded schedule exploration of the real bus vs list reference model", "DESIGN.md section 4 C20")
